@@ -1,0 +1,25 @@
+//go:build !verif
+
+/*
+Copyright 2026 Codenotary Inc. All rights reserved.
+
+SPDX-License-Identifier: BUSL-1.1
+*/
+
+// Package verifhook exposes observation and perturbation points used by an
+// external runtime-verification harness. Without the "verif" build tag every
+// entry point is an empty function.
+package verifhook
+
+const Enabled = false
+
+func Point(site string)                           {}
+func Fault(site string) error                     { return nil }
+func Note(site string, a, b uint64, h [32]byte)   {}
+func FSCreate(path string)                        {}
+func FSWrite(path string, off int64, data []byte) {}
+func FSSync(path string)                          {}
+func FSSyncDir(path string)                       {}
+func FSRemove(path string)                        {}
+func FSRemoveAll(path string)                     {}
+func FSRename(from, to string)                    {}
